@@ -1,8 +1,1396 @@
-//! C16 — not built yet.
+//! C16 — off-reader (`_blocking`) WebSocket handlers are capped per connection, never block the
+//! reader and never kill the connection.
+//!
+//! Workload: a real `WebSocketServer` (cap 1..16, the default, or unlimited) whose blocking routes
+//! count themselves in a per-connection gauge through an RAII guard (a panic decrements too) and
+//! park on per-request gates owned by the harness.  A raw `tokio_tungstenite` client that speaks
+//! REPE through `oracle.rs` pipelines up to 4×cap requests / notifies interleaved with inline
+//! `/ping` calls, releases the parked handlers in a chosen order (all permutations × all outcome
+//! assignments for cap ≤ 3), mixes in handlers that return / error / panic, refills freed slots and
+//! finally demands the whole capacity back.
+//!
+//! Oracle (events, never latencies):
+//!  * gauge value seen by every handler right after its increment ≤ cap;
+//!  * the first `cap` off-reader messages of a fresh connection are admitted, every later one is
+//!    answered with ec 8 and its own id (a notify: no handler, no frame) — and those replies, as
+//!    well as the replies to the interleaved inline pings, are RECEIVED BEFORE the harness releases
+//!    any gate;
+//!  * a parked call is answered only after its gate was released, with its id and the outcome it was
+//!    scripted to have (return → ec 0 + token, error → application code, panic → ec 9); the other
+//!    parked calls stay parked and are answered correctly later; the connection never closes;
+//!  * slot recovery as bounded progress: after all handlers exited, `cap` new parked requests are
+//!    all admitted (Started event while parked) within a bounded number of retries on ec 8, the
+//!    gauge then reads exactly `cap`, and one more request is again rejected.
+//! Anything that depends on the machine making progress (15 s windows) is inconclusive when the
+//! heartbeat saw a stall.
+
 use crate::common::*;
+use crate::oracle::{self, SpecHeader};
+use futures_util::{SinkExt, StreamExt};
+use repe::server::{HandlerErased, Middleware, Next, Router};
+use repe::{CallContext, ConnectionError, ErrorCode, Execution, Message, RepeError, WebSocketServer};
+use serde_json::{Value, json};
+use std::collections::{HashMap, HashSet};
+use std::sync::atomic::{AtomicU64, Ordering};
+use std::sync::{Arc, Mutex};
+use std::time::{Duration, Instant};
+use tokio::sync::mpsc::{UnboundedReceiver, UnboundedSender, unbounded_channel};
+use tokio_tungstenite::tungstenite::Message as WsMsg;
+
+type Ws = tokio_tungstenite::WebSocketStream<tokio::net::TcpStream>;
+
+const WINDOW: Duration = Duration::from_secs(15);
+const ROUTES: [&str; 5] = ["json_blocking", "json_ctx_blocking", "typed_blocking", "typed_ctx_blocking", "erased_offreader"];
+static CONN_IDS: AtomicU64 = AtomicU64::new(1);
+
+// ------------------------------------------------------------------ scripts
+
+#[derive(Clone, Copy, Debug, Hash, PartialEq, Eq)]
+enum Out {
+    Ret,
+    Err,
+    Panic,
+}
+impl Out {
+    fn name(self) -> &'static str {
+        match self {
+            Out::Ret => "ret",
+            Out::Err => "err",
+            Out::Panic => "panic",
+        }
+    }
+    fn from(s: &str) -> Out {
+        match s {
+            "err" => Out::Err,
+            "panic" => Out::Panic,
+            _ => Out::Ret,
+        }
+    }
+    fn pick(r: &mut Rng) -> Out {
+        [Out::Ret, Out::Err, Out::Panic][r.usize_below(3)]
+    }
+}
+
+#[derive(Clone, Copy, Debug, Hash, PartialEq, Eq)]
+enum Item {
+    Park { out: Out, notify: bool },
+    Ping,
+}
+
+#[derive(Clone, Debug, Hash)]
+struct Script {
+    burst: Vec<Item>,
+    /// order in which the initially admitted handlers are released (indices into the admitted list)
+    release: Vec<usize>,
+    /// seed of the in-flight choices (refills, interleaved pings, instant batch, recovery outcomes)
+    seed: u64,
+}
+
+#[derive(Clone, Debug, Hash)]
+struct Case {
+    cap: usize, // 0 = unlimited
+    use_default_cap: bool,
+    route: usize,
+    mw: u8, // 0 none, 1 one middleware registered before the routes, 2 one before + one after
+    scripts: Vec<Script>,
+    exhaustive: bool,
+}
+
+fn item_str(i: &Item) -> String {
+    match i {
+        Item::Ping => "ping".into(),
+        Item::Park { out, notify } => format!("{}{}", if *notify { "notify-" } else { "park-" }, out.name()),
+    }
+}
+fn item_from(s: &str) -> Item {
+    if s == "ping" {
+        Item::Ping
+    } else if let Some(o) = s.strip_prefix("notify-") {
+        Item::Park { out: Out::from(o), notify: true }
+    } else {
+        Item::Park { out: Out::from(s.strip_prefix("park-").unwrap_or("ret")), notify: false }
+    }
+}
+fn case_json(c: &Case) -> Value {
+    json!({
+        "cap": c.cap, "use_default_cap": c.use_default_cap, "route": ROUTES[c.route], "mw": c.mw, "exhaustive": c.exhaustive,
+        "scripts": c.scripts.iter().map(|s| json!({
+            "burst": s.burst.iter().map(item_str).collect::<Vec<_>>(), "release": s.release, "seed": s.seed.to_string()
+        })).collect::<Vec<_>>(),
+    })
+}
+fn case_from_json(v: &Value) -> Option<Case> {
+    let scripts = v["scripts"]
+        .as_array()?
+        .iter()
+        .map(|s| Script {
+            burst: s["burst"].as_array().map(|a| a.iter().map(|x| item_from(x.as_str().unwrap_or("ping"))).collect()).unwrap_or_default(),
+            release: s["release"].as_array().map(|a| a.iter().map(|x| x.as_u64().unwrap_or(0) as usize).collect()).unwrap_or_default(),
+            seed: s["seed"].as_str().and_then(|x| x.parse().ok()).unwrap_or(1),
+        })
+        .collect();
+    Some(Case {
+        cap: v["cap"].as_u64()? as usize,
+        use_default_cap: v["use_default_cap"].as_bool().unwrap_or(false),
+        route: ROUTES.iter().position(|r| Some(*r) == v["route"].as_str()).unwrap_or(0),
+        mw: v["mw"].as_u64().unwrap_or(0) as u8,
+        scripts,
+        exhaustive: v["exhaustive"].as_bool().unwrap_or(false),
+    })
+}
+
+/// Number of off-reader messages the model admits from a burst on a fresh connection.
+fn admitted_count(cap: usize, burst: &[Item]) -> usize {
+    let n = burst.iter().filter(|i| matches!(i, Item::Park { .. })).count();
+    if cap == 0 { n } else { n.min(cap) }
+}
+
+fn permutations(n: usize) -> Vec<Vec<usize>> {
+    fn rec(cur: &mut Vec<usize>, used: &mut Vec<bool>, n: usize, out: &mut Vec<Vec<usize>>) {
+        if cur.len() == n {
+            out.push(cur.clone());
+            return;
+        }
+        for i in 0..n {
+            if !used[i] {
+                used[i] = true;
+                cur.push(i);
+                rec(cur, used, n, out);
+                cur.pop();
+                used[i] = false;
+            }
+        }
+    }
+    let mut out = vec![];
+    rec(&mut vec![], &mut vec![false; n], n, &mut out);
+    out
+}
+
+/// Interleave `pings` inline pings at random positions of `parks`.
+fn interleave(r: &mut Rng, parks: Vec<Item>, pings: usize) -> Vec<Item> {
+    let mut v = parks;
+    for _ in 0..pings {
+        let at = r.usize_below(v.len() + 1);
+        v.insert(at, Item::Ping);
+    }
+    v
+}
+
+fn random_script(r: &mut Rng, cap: usize) -> Script {
+    let n = if cap == 0 { 1 + r.usize_below(40) } else { cap + 1 + r.usize_below(3 * cap) }; // cap+1 ..= 4*cap
+    let parks: Vec<Item> = (0..n).map(|_| Item::Park { out: Out::pick(r), notify: r.chance(1, 4) }).collect();
+    let pings = 1 + r.usize_below(4);
+    let burst = interleave(r, parks, pings);
+    let adm = admitted_count(cap, &burst);
+    let mut release: Vec<usize> = (0..adm).collect();
+    r.shuffle(&mut release);
+    Script { burst, release, seed: r.next_u64() }
+}
+
+fn plan(args: &Args) -> Vec<Case> {
+    let mut rng = Rng::new(args.seed ^ 0xC16);
+    let mut cases = vec![];
+    // (a) exhaustive: caps 1..3 × every outcome assignment of the admitted handlers × every release order.
+    // Thorough additionally enumerates request/notify for every admitted handler.
+    for cap in 1..=3usize {
+        let alphabet: Vec<(Out, bool)> = if args.thorough() {
+            [Out::Ret, Out::Err, Out::Panic].iter().flat_map(|o| [(*o, false), (*o, true)]).collect()
+        } else {
+            [Out::Ret, Out::Err, Out::Panic].iter().map(|o| (*o, false)).collect()
+        };
+        let perms = permutations(cap);
+        let combos = alphabet.len().pow(cap as u32);
+        for combo in 0..combos {
+            let mut c = combo;
+            let admitted: Vec<Item> = (0..cap)
+                .map(|_| {
+                    let (out, notify) = alphabet[c % alphabet.len()];
+                    c /= alphabet.len();
+                    Item::Park { out, notify }
+                })
+                .collect();
+            for perm in &perms {
+                let extra = 1 + rng.usize_below(3 * cap);
+                let mut parks = admitted.clone();
+                for _ in 0..extra {
+                    parks.push(Item::Park { out: Out::pick(&mut rng), notify: rng.chance(1, 3) });
+                }
+                // pings may go anywhere; the admitted prefix keeps its order because only pings are inserted
+                let pings = 1 + rng.usize_below(3);
+                let burst = interleave(&mut rng, parks, pings);
+                cases.push(Case {
+                    cap,
+                    use_default_cap: false,
+                    route: rng.usize_below(ROUTES.len()),
+                    mw: rng.below(3) as u8,
+                    scripts: vec![Script { burst, release: perm.clone(), seed: rng.next_u64() }],
+                    exhaustive: true,
+                });
+            }
+        }
+    }
+    // (b) random: caps 4..16, the default cap, unlimited; 1..3 concurrent connections per server.
+    let n_random = args.budget(700, 9000);
+    for i in 0..n_random {
+        let cap = match rng.below(10) {
+            0 => 0,
+            1 => 16,
+            2 => 1 + rng.usize_below(3),
+            _ => 4 + rng.usize_below(13),
+        };
+        let conns = match rng.below(6) {
+            0 => 2,
+            1 => 3,
+            _ => 1,
+        };
+        let conns = if cap == 0 { 1 } else { conns };
+        let scripts = (0..conns).map(|_| random_script(&mut rng, cap)).collect();
+        cases.push(Case {
+            cap,
+            use_default_cap: cap == 16 && rng.coin(),
+            route: (i as usize) % ROUTES.len(),
+            mw: rng.below(3) as u8,
+            scripts,
+            exhaustive: false,
+        });
+    }
+    cases
+}
+
+// ------------------------------------------------------------------ server side (workload handlers)
+
+enum Ev {
+    Started { tok: u64, running: u64 },
+    Exited { tok: u64 },
+}
+
+struct Shared {
+    gauges: Mutex<HashMap<u64, (u64, u64)>>, // conn → (running, max)
+    gates: Mutex<HashMap<u64, std::sync::mpsc::Receiver<()>>>,
+    ev: Mutex<HashMap<u64, UnboundedSender<Ev>>>, // conn → driver
+    mw_calls: AtomicU64,
+    ctx_peer_seen: AtomicU64,
+    gate_timeouts: AtomicU64,
+    hook_saturation: AtomicU64,
+    hook_panic: AtomicU64,
+    hook_other: AtomicU64,
+}
+
+impl Shared {
+    fn new() -> Arc<Shared> {
+        Arc::new(Shared {
+            gauges: Mutex::new(HashMap::new()),
+            gates: Mutex::new(HashMap::new()),
+            ev: Mutex::new(HashMap::new()),
+            mw_calls: AtomicU64::new(0),
+            ctx_peer_seen: AtomicU64::new(0),
+            gate_timeouts: AtomicU64::new(0),
+            hook_saturation: AtomicU64::new(0),
+            hook_panic: AtomicU64::new(0),
+            hook_other: AtomicU64::new(0),
+        })
+    }
+    fn emit(&self, conn: u64, ev: Ev) {
+        if let Some(tx) = self.ev.lock().unwrap_or_else(|e| e.into_inner()).get(&conn) {
+            let _ = tx.send(ev);
+        }
+    }
+    fn gauge(&self, conn: u64) -> (u64, u64) {
+        self.gauges.lock().unwrap_or_else(|e| e.into_inner()).get(&conn).copied().unwrap_or((0, 0))
+    }
+}
+
+/// RAII gauge: increments on entry, decrements on drop (so a panic decrements as well).
+struct Running<'a> {
+    sh: &'a Shared,
+    conn: u64,
+    tok: u64,
+}
+impl<'a> Running<'a> {
+    fn enter(sh: &'a Shared, conn: u64, tok: u64) -> Running<'a> {
+        let running = {
+            let mut g = sh.gauges.lock().unwrap_or_else(|e| e.into_inner());
+            let e = g.entry(conn).or_insert((0, 0));
+            e.0 += 1;
+            e.1 = e.1.max(e.0);
+            e.0
+        };
+        sh.emit(conn, Ev::Started { tok, running });
+        Running { sh, conn, tok }
+    }
+}
+impl Drop for Running<'_> {
+    fn drop(&mut self) {
+        {
+            let mut g = self.sh.gauges.lock().unwrap_or_else(|e| e.into_inner());
+            if let Some(e) = g.get_mut(&self.conn) {
+                e.0 = e.0.saturating_sub(1);
+            }
+        }
+        self.sh.emit(self.conn, Ev::Exited { tok: self.tok });
+    }
+}
+
+/// The body of every blocking route: count, park on the request's gate, then exit as scripted.
+fn park(sh: &Shared, v: &Value) -> Result<Value, (ErrorCode, String)> {
+    let tok = v["tok"].as_u64().unwrap_or(0);
+    let conn = v["conn"].as_u64().unwrap_or(0);
+    let out = Out::from(v["out"].as_str().unwrap_or("ret"));
+    let _running = Running::enter(sh, conn, tok);
+    let gate = sh.gates.lock().unwrap_or_else(|e| e.into_inner()).remove(&tok);
+    if let Some(rx) = gate {
+        // Ok(()) = released; Disconnected = the driver gave up on the scenario; Timeout = harness trouble
+        if let Err(std::sync::mpsc::RecvTimeoutError::Timeout) = rx.recv_timeout(Duration::from_secs(45)) {
+            sh.gate_timeouts.fetch_add(1, Ordering::Relaxed);
+        }
+    }
+    match out {
+        Out::Ret => Ok(json!({ "tok": tok })),
+        Out::Err => Err((ErrorCode::ApplicationErrorBase, format!("E{tok}"))),
+        Out::Panic => panic!("c16 scripted handler panic {tok}"),
+    }
+}
+
+struct CountingMw(Arc<Shared>);
+impl Middleware for CountingMw {
+    fn handle(&self, req: &Message, next: Next<'_>) -> Result<Message, RepeError> {
+        self.0.mw_calls.fetch_add(1, Ordering::Relaxed);
+        next.run(req)
+    }
+}
+
+/// A hand-written off-reader handler (custom `HandlerErased` whose `execution` is `OffReader`).
+struct ErasedPark(Arc<Shared>);
+impl HandlerErased for ErasedPark {
+    fn handle(&self, req: &Message) -> Result<Message, RepeError> {
+        let v: Value = serde_json::from_slice(&req.body)?;
+        match park(&self.0, &v) {
+            Ok(val) => Ok(Message::builder().id(req.header.id).query_format_code(req.header.query_format).body_json(&val)?.build()),
+            Err((_, msg)) => Err(RepeError::Io(std::io::Error::other(msg))),
+        }
+    }
+    fn handle_with_ctx(&self, req: &Message, ctx: &CallContext) -> Result<Message, RepeError> {
+        if ctx.peer().is_some() {
+            self.0.ctx_peer_seen.fetch_add(1, Ordering::Relaxed);
+        }
+        self.handle(req)
+    }
+    fn execution(&self) -> Execution {
+        Execution::OffReader
+    }
+}
+
+fn build_router(sh: &Arc<Shared>, route: usize, mw: u8) -> Router {
+    let mut r = Router::new();
+    if mw >= 1 {
+        r = r.with_middleware(CountingMw(sh.clone()));
+    }
+    r = r.with_json("/ping", |v| Ok(json!({ "pong": v["tok"].clone() })));
+    let s = sh.clone();
+    r = match route {
+        0 => r.with_json_blocking("/park", move |v| park(&s, &v)),
+        1 => r.with_json_ctx_blocking("/park", move |ctx: &CallContext, v| {
+            if ctx.peer().is_some() {
+                s.ctx_peer_seen.fetch_add(1, Ordering::Relaxed);
+            }
+            park(&s, &v)
+        }),
+        2 => r.with_typed_blocking::<Value, Value, _>("/park", move |v: Value| park(&s, &v)),
+        3 => r.with_typed_ctx_blocking::<Value, Value, _>("/park", move |ctx: &CallContext, v: Value| {
+            if ctx.peer().is_some() {
+                s.ctx_peer_seen.fetch_add(1, Ordering::Relaxed);
+            }
+            park(&s, &v)
+        }),
+        _ => r.with_erased_handler("/park", Arc::new(ErasedPark(s))),
+    };
+    if mw >= 2 {
+        r = r.with_middleware(CountingMw(sh.clone()));
+    }
+    r
+}
+
+// ------------------------------------------------------------------ raw client driver
+
+#[derive(Clone, Debug)]
+enum Exp {
+    Ping { tok: u64 },
+    /// an off-reader request sent while the model says the cap is reached
+    Reject,
+    /// an off-reader request that may run; `released` = its gate was opened (or it has none)
+    Call { tok: u64, out: Out, released: bool, may_reject: bool },
+}
+
+#[derive(Default, Clone)]
+struct Stats {
+    frames: u64,
+    admitted: u64,
+    overcap_requests_rejected: u64,
+    overcap_notifies: u64,
+    pings_answered_during_saturation: u64,
+    pings_answered: u64,
+    panic_replies: u64,
+    error_replies: u64,
+    return_replies: u64,
+    refills: u64,
+    instants: u64,
+    instants_rejected: u64,
+    recovered_slots: u64,
+    retries: u64,
+    max_retries: u64,
+    rejects_seen: u64,
+    gauge_max: u64,
+    started_events: u64,
+    saturations_reached: u64,
+    recovery_probe_rejected: u64,
+}
+
+struct Drv {
+    ws: Ws,
+    ev_rx: UnboundedReceiver<Ev>,
+    sh: Arc<Shared>,
+    hb: Arc<Heartbeat>,
+    conn: u64,
+    cap: usize,
+    tag: String,
+    next_id: u64,
+    next_tok: u64,
+    pending: HashMap<u64, Exp>,
+    gates: HashMap<u64, std::sync::mpsc::Sender<()>>,
+    started: HashSet<u64>,
+    exited: HashSet<u64>,
+    /// tokens whose handler must never run: tok → (is_notify, why)
+    forbidden: HashMap<u64, bool>,
+    notify_ids: HashSet<u64>,
+    got8: HashSet<u64>,
+    saturated_now: bool,
+    /// set while a failed wait is being diagnosed: inputs are consumed but no longer judged
+    diagnosing: bool,
+    exit_kinds: HashSet<Out>,
+    closed: Option<String>,
+    viols: Vec<(String, String)>,
+    inconcl: Vec<String>,
+    st: Stats,
+    order: Vec<(u8, u64)>,
+}
+
+fn req_frame(id: u64, notify: bool, path: &str, body: &Value) -> Vec<u8> {
+    let h = SpecHeader { spec: oracle::SPEC, version: 1, notify: notify as u8, id, query_format: 1, body_format: 2, ..Default::default() };
+    oracle::frame(h, path.as_bytes(), serde_json::to_vec(body).unwrap().as_slice())
+}
+
+impl Drv {
+    fn viol(&mut self, sig: impl Into<String>, detail: impl Into<String>) {
+        self.viols.push((sig.into(), detail.into()));
+    }
+    /// A verdict that needs the machine to have made progress: inconclusive when a stall was seen.
+    fn progress_viol(&mut self, sig: impl Into<String>, detail: impl Into<String>) {
+        let gap = self.hb.max_gap_ms();
+        if gap > 1000 {
+            self.inconcl.push(format!("{} suppressed: heartbeat saw a {gap} ms stall ({})", sig.into(), detail.into()));
+        } else {
+            self.viols.push((sig.into(), detail.into()));
+        }
+    }
+    fn new_tok(&mut self) -> u64 {
+        self.next_tok += 1;
+        self.conn * 1_000_000 + self.next_tok
+    }
+    fn new_id(&mut self) -> u64 {
+        self.next_id += 1;
+        // ids are spread out so a truncated / zeroed id cannot collide with a live one
+        self.conn.wrapping_mul(0x0001_0000_0001) ^ (self.next_id << 8) | 1
+    }
+    fn add_gate(&mut self, tok: u64) {
+        let (tx, rx) = std::sync::mpsc::channel();
+        self.sh.gates.lock().unwrap_or_else(|e| e.into_inner()).insert(tok, rx);
+        self.gates.insert(tok, tx);
+    }
+    fn drop_gate(&mut self, tok: u64) {
+        self.gates.remove(&tok);
+        self.sh.gates.lock().unwrap_or_else(|e| e.into_inner()).remove(&tok);
+    }
+    fn release(&mut self, tok: u64) {
+        if let Some(tx) = self.gates.remove(&tok) {
+            let _ = tx.send(());
+        }
+        for e in self.pending.values_mut() {
+            if let Exp::Call { tok: t, released, .. } = e {
+                if *t == tok {
+                    *released = true;
+                }
+            }
+        }
+    }
+    fn park_body(&self, tok: u64, out: Out) -> Value {
+        json!({ "tok": tok, "conn": self.conn, "out": out.name() })
+    }
+    async fn send_all(&mut self, frames: Vec<Vec<u8>>) {
+        for f in frames {
+            if let Err(e) = self.ws.feed(WsMsg::Binary(f)).await {
+                self.closed = Some(format!("send failed: {e}"));
+                return;
+            }
+        }
+        if let Err(e) = self.ws.flush().await {
+            self.closed = Some(format!("flush failed: {e}"));
+        }
+    }
+
+    /// Process one input (frame or handler event). false = deadline passed or connection gone.
+    async fn pump(&mut self, dl: Instant) -> bool {
+        if self.closed.is_some() {
+            return false;
+        }
+        let left = dl.saturating_duration_since(Instant::now());
+        if left.is_zero() {
+            return false;
+        }
+        tokio::select! {
+            biased;
+            ev = self.ev_rx.recv() => {
+                match ev {
+                    Some(e) => self.on_event(e),
+                    None => { self.closed = Some("event channel closed".into()); return false; }
+                }
+                true
+            }
+            m = self.ws.next() => {
+                match m {
+                    Some(Ok(WsMsg::Binary(b))) => { self.on_frame(&b); true }
+                    Some(Ok(WsMsg::Close(c))) => { self.closed = Some(format!("close frame {c:?}")); false }
+                    Some(Ok(_)) => true,
+                    Some(Err(e)) => { self.closed = Some(format!("transport error: {e}")); false }
+                    None => { self.closed = Some("stream ended".into()); false }
+                }
+            }
+            _ = tokio::time::sleep(left) => false,
+        }
+    }
+
+    fn on_event(&mut self, e: Ev) {
+        if self.diagnosing {
+            match e {
+                Ev::Started { tok, .. } => self.started.insert(tok),
+                Ev::Exited { tok } => self.exited.insert(tok),
+            };
+            return;
+        }
+        match e {
+            Ev::Started { tok, running } => {
+                self.st.started_events += 1;
+                self.order.push((1, tok % 1_000_000));
+                self.started.insert(tok);
+                self.st.gauge_max = self.st.gauge_max.max(running);
+                if self.cap > 0 && running > self.cap as u64 {
+                    self.viol("C16:gauge-over-cap", format!("handler for token {tok} observed {running} running off-reader handlers on its connection, cap {}", self.cap));
+                }
+                if let Some(is_notify) = self.forbidden.get(&tok).copied() {
+                    if is_notify {
+                        self.viol("C16:over-cap-notify-ran-handler", format!("notify with token {tok} was sent while {} handlers were parked (cap {}) and its handler ran", self.cap, self.cap));
+                    } else {
+                        self.viol("C16:over-cap-request-ran-handler", format!("request with token {tok} was sent at / rejected by the cap ({}) and its handler ran", self.cap));
+                    }
+                }
+            }
+            Ev::Exited { tok } => {
+                self.order.push((2, tok % 1_000_000));
+                self.exited.insert(tok);
+            }
+        }
+    }
+
+    fn on_frame(&mut self, b: &[u8]) {
+        self.st.frames += 1;
+        let Some((h, ql, _bl)) = oracle::valid_parse(b, true) else {
+            self.viol("C16:malformed-frame", format!("server sent a binary message that is not one consistent REPE frame: {}", hex_trunc(b, 80)));
+            return;
+        };
+        let body = &b[oracle::HDR + ql..];
+        self.order.push((3, h.id & 0xffff_ffff));
+        if self.diagnosing {
+            self.pending.remove(&h.id);
+            return;
+        }
+        if h.notify != 0 || self.notify_ids.contains(&h.id) {
+            let sig = if self.notify_ids.contains(&h.id) { "C16:notify-produced-frame" } else { "C16:unexpected-notify-frame" };
+            self.viol(sig, format!("frame id {} notify {} ec {} body {:?} (a notify must never be answered; cap {})", h.id, h.notify, h.ec, String::from_utf8_lossy(&body[..body.len().min(80)]), self.cap));
+            return;
+        }
+        let Some(exp) = self.pending.remove(&h.id) else {
+            self.viol("C16:unexpected-frame", format!("response with id {} ec {} matches no outstanding request (duplicate, or wrong id): body {:?}", h.id, h.ec, String::from_utf8_lossy(&body[..body.len().min(80)])));
+            return;
+        };
+        let text = String::from_utf8_lossy(&body[..body.len().min(120)]).to_string();
+        match exp {
+            Exp::Ping { tok } => {
+                let ok = h.ec == 0 && serde_json::from_slice::<Value>(body).map(|v| v["pong"].as_u64() == Some(tok)).unwrap_or(false);
+                if ok {
+                    self.st.pings_answered += 1;
+                    if self.saturated_now {
+                        self.st.pings_answered_during_saturation += 1;
+                    }
+                } else {
+                    self.viol(format!("C16:inline-wrong-reply:ec={}", h.ec), format!("ping with token {tok} answered with ec {} body {text:?}", h.ec));
+                }
+            }
+            Exp::Reject => {
+                if h.ec == 8 {
+                    self.st.overcap_requests_rejected += 1;
+                    self.st.rejects_seen += 1;
+                } else {
+                    self.viol(format!("C16:over-cap-wrong-reply:ec={}", h.ec), format!("request id {} sent while the cap ({}) was reached was answered with ec {} body {text:?} instead of ResourceExhausted (8)", h.id, self.cap, h.ec));
+                }
+            }
+            Exp::Call { tok, out, released, may_reject } => {
+                if h.ec == 8 {
+                    self.st.rejects_seen += 1;
+                    if may_reject {
+                        self.got8.insert(h.id);
+                        self.forbidden.insert(tok, false);
+                    } else {
+                        self.viol("C16:rejected-below-cap:fresh-connection", format!("request id {} (token {tok}) was among the first {} off-reader messages of a fresh connection and was rejected with ec 8", h.id, self.cap));
+                    }
+                    return;
+                }
+                if !released {
+                    self.viol("C16:response-before-release", format!("parked request id {} token {tok} was answered (ec {} body {text:?}) before its gate was opened", h.id, h.ec));
+                    return;
+                }
+                self.exit_kinds.insert(out);
+                match out {
+                    Out::Ret => {
+                        let ok = h.ec == 0 && serde_json::from_slice::<Value>(body).map(|v| v["tok"].as_u64() == Some(tok)).unwrap_or(false);
+                        if ok {
+                            self.st.return_replies += 1;
+                        } else {
+                            self.viol(format!("C16:returning-handler-wrong-reply:ec={}", h.ec), format!("request id {} token {tok}: handler returned normally but the reply is ec {} body {text:?}", h.id, h.ec));
+                        }
+                    }
+                    Out::Err => {
+                        let ok = h.ec != 0 && h.ec != 8 && h.ec != 9 && text.contains(&format!("E{tok}"));
+                        if ok {
+                            self.st.error_replies += 1;
+                        } else {
+                            self.viol(format!("C16:erroring-handler-wrong-reply:ec={}", h.ec), format!("request id {} token {tok}: handler returned an application error but the reply is ec {} body {text:?}", h.id, h.ec));
+                        }
+                    }
+                    Out::Panic => {
+                        if h.ec == 9 {
+                            self.st.panic_replies += 1;
+                        } else {
+                            self.viol(format!("C16:panic-wrong-reply:ec={}", h.ec), format!("request id {} token {tok}: handler panicked but the reply is ec {} body {text:?} instead of InternalError (9)", h.id, h.ec));
+                        }
+                    }
+                }
+            }
+        }
+    }
+
+    fn outstanding_immediates(&self) -> Vec<(u64, &'static str)> {
+        let mut v: Vec<(u64, &'static str)> = self
+            .pending
+            .iter()
+            .filter_map(|(id, e)| match e {
+                Exp::Ping { .. } => Some((*id, "inline-request")),
+                Exp::Reject => Some((*id, "over-cap-request")),
+                _ => None,
+            })
+            .collect();
+        v.sort();
+        v
+    }
+
+    /// Wait until every reply that must come without any gate being opened has arrived and
+    /// `toks` have all started. On failure: diagnose (open all gates, see whether the replies
+    /// come then), record the verdict and return false.
+    async fn await_immediates(&mut self, toks: &[u64], phase: &str) -> bool {
+        let dl = Instant::now() + WINDOW;
+        loop {
+            let done = self.outstanding_immediates().is_empty() && toks.iter().all(|t| self.started.contains(t) || self.forbidden.contains_key(t));
+            if done || !self.viols.is_empty() {
+                break;
+            }
+            if !self.pump(dl).await {
+                break;
+            }
+        }
+        if !self.viols.is_empty() {
+            return false;
+        }
+        if let Some(why) = self.closed.clone() {
+            self.viol(format!("C16:connection-lost:{phase}"), format!("connection ended ({why}) while {} handlers were parked; cap {}", toks.len(), self.cap));
+            return false;
+        }
+        let missing = self.outstanding_immediates();
+        if missing.is_empty() {
+            let not_started: Vec<u64> = toks.iter().filter(|t| !self.started.contains(t)).copied().collect();
+            if not_started.is_empty() {
+                return true;
+            }
+            self.inconcl.push(format!("{phase}: {} admitted handlers did not start within {:?} (blocking pool starved?)", not_started.len(), WINDOW));
+            return false;
+        }
+        // diagnosis: do the replies come once the parked handlers are let go?
+        self.diagnosing = true;
+        let parked: Vec<u64> = self.gates.keys().copied().collect();
+        let n_parked = parked.len();
+        for t in parked {
+            self.release(t);
+        }
+        let dl2 = Instant::now() + Duration::from_secs(4);
+        while !self.outstanding_immediates().is_empty() && self.pump(dl2).await {}
+        let still = self.outstanding_immediates();
+        let mut kinds: Vec<&'static str> = missing.iter().map(|m| m.1).collect();
+        kinds.dedup();
+        kinds.sort();
+        kinds.dedup();
+        for kind in kinds {
+            let came_later = !still.iter().any(|s| s.1 == kind);
+            let sig = if came_later { format!("C16:{kind}-answered-only-after-release:{}", self.tag) } else { format!("C16:{kind}-never-answered:{}", self.tag) };
+            let n = missing.iter().filter(|m| m.1 == kind).count();
+            self.progress_viol(
+                sig,
+                format!(
+                    "{phase}: {n} {kind} replies did not arrive within {:?} while {n_parked} handlers were parked (cap {}); after opening every gate they {}",
+                    WINDOW,
+                    self.cap,
+                    if came_later { "arrived" } else { "still did not arrive within 4 s" }
+                ),
+            );
+        }
+        false
+    }
+
+    /// Wait for the reply of request `id` (its gate has been opened).
+    async fn await_reply(&mut self, id: u64, what: &str) -> bool {
+        let dl = Instant::now() + WINDOW;
+        while self.pending.contains_key(&id) && self.viols.is_empty() {
+            if !self.pump(dl).await {
+                break;
+            }
+        }
+        if !self.viols.is_empty() {
+            return false;
+        }
+        if let Some(why) = self.closed.clone() {
+            self.viol(format!("C16:connection-lost:{what}"), format!("connection ended ({why}) while waiting for the reply to request id {id}; cap {}", self.cap));
+            return false;
+        }
+        if self.pending.contains_key(&id) {
+            self.progress_viol(format!("C16:no-reply:{what}"), format!("request id {id} got no reply within {:?} after its handler was let go; cap {}", WINDOW, self.cap));
+            return false;
+        }
+        true
+    }
+
+    async fn ping(&mut self, phase: &str) -> bool {
+        let id = self.new_id();
+        let tok = self.new_tok();
+        self.pending.insert(id, Exp::Ping { tok });
+        self.send_all(vec![req_frame(id, false, "/ping", &json!({ "tok": tok }))]).await;
+        self.await_reply(id, &format!("inline-{phase}")).await
+    }
+
+    /// Send one parked request and retry on ec 8 until its handler has started.
+    async fn admit_with_retries(&mut self, out: Out, phase: &str) -> Option<(u64, u64)> {
+        let overall = Instant::now() + Duration::from_secs(12);
+        for attempt in 0..400u64 {
+            let id = self.new_id();
+            let tok = self.new_tok();
+            self.add_gate(tok);
+            self.pending.insert(id, Exp::Call { tok, out, released: false, may_reject: true });
+            let body = self.park_body(tok, out);
+            self.send_all(vec![req_frame(id, false, "/park", &body)]).await;
+            while !self.started.contains(&tok) && !self.got8.contains(&id) && self.viols.is_empty() {
+                if !self.pump(overall).await {
+                    break;
+                }
+            }
+            if !self.viols.is_empty() {
+                return None;
+            }
+            if self.started.contains(&tok) {
+                self.st.retries += attempt;
+                self.st.max_retries = self.st.max_retries.max(attempt);
+                return Some((id, tok));
+            }
+            if self.got8.contains(&id) {
+                self.drop_gate(tok);
+                if Instant::now() >= overall {
+                    break;
+                }
+                tokio::time::sleep(Duration::from_millis((1 + attempt / 4).min(25))).await;
+                continue;
+            }
+            if let Some(why) = self.closed.clone() {
+                self.viol(format!("C16:connection-lost:{phase}"), format!("connection ended ({why}) during {phase}; cap {}", self.cap));
+                return None;
+            }
+            break;
+        }
+        None
+    }
+
+    fn homogeneous_exit_suffix(&self) -> &'static str {
+        if self.exit_kinds.len() == 1 {
+            match self.exit_kinds.iter().next() {
+                Some(Out::Ret) => "after-return-only",
+                Some(Out::Err) => "after-error-only",
+                _ => "after-panic-only",
+            }
+        } else {
+            "after-mixed-exits"
+        }
+    }
+
+    async fn run_script(&mut self, s: &Script) {
+        let mut rng = Rng::new(s.seed ^ 0x5C16);
+        // ---------------- P1: pipelined burst on a fresh connection
+        let mut frames = vec![];
+        let mut running = 0usize;
+        let mut admitted: Vec<(Option<u64>, u64, Out)> = vec![]; // (request id or None for notify, tok, out)
+        for it in &s.burst {
+            match *it {
+                Item::Ping => {
+                    let (id, tok) = (self.new_id(), self.new_tok());
+                    self.pending.insert(id, Exp::Ping { tok });
+                    frames.push(req_frame(id, false, "/ping", &json!({ "tok": tok })));
+                }
+                Item::Park { out, notify } => {
+                    let (id, tok) = (self.new_id(), self.new_tok());
+                    let admit = self.cap == 0 || running < self.cap;
+                    if admit {
+                        running += 1;
+                        self.add_gate(tok);
+                        if notify {
+                            self.notify_ids.insert(id);
+                            admitted.push((None, tok, out));
+                        } else {
+                            self.pending.insert(id, Exp::Call { tok, out, released: false, may_reject: false });
+                            admitted.push((Some(id), tok, out));
+                        }
+                    } else {
+                        self.forbidden.insert(tok, notify);
+                        if notify {
+                            self.notify_ids.insert(id);
+                            self.st.overcap_notifies += 1;
+                        } else {
+                            self.pending.insert(id, Exp::Reject);
+                        }
+                    }
+                    let body = self.park_body(tok, out);
+                    frames.push(req_frame(id, notify, "/park", &body));
+                }
+            }
+        }
+        self.st.admitted += admitted.len() as u64;
+        self.saturated_now = self.cap > 0 && running == self.cap;
+        self.send_all(frames).await;
+        let toks: Vec<u64> = admitted.iter().map(|a| a.1).collect();
+        if !self.await_immediates(&toks, "burst").await {
+            return;
+        }
+        if self.saturated_now {
+            self.st.saturations_reached += 1;
+            let (cur, _) = self.sh.gauge(self.conn);
+            if cur != self.cap as u64 {
+                self.viol("C16:gauge-mismatch-at-saturation", format!("{} handlers admitted and parked, gauge reads {cur}", self.cap));
+                return;
+            }
+        }
+        // ---------------- P2: release in the scripted order, one at a time, confirming each
+        let mut queue: Vec<(Option<u64>, u64, Out)> = s.release.iter().filter_map(|&i| admitted.get(i).copied()).collect();
+        let mut refills = 0;
+        while !queue.is_empty() {
+            let (id, tok, out) = queue.remove(0);
+            self.release(tok);
+            self.saturated_now = false;
+            match id {
+                Some(id) => {
+                    if !self.await_reply(id, &format!("released-{}", out.name())).await {
+                        return;
+                    }
+                }
+                None => {
+                    let dl = Instant::now() + WINDOW;
+                    while !self.exited.contains(&tok) && self.viols.is_empty() && self.pump(dl).await {}
+                    if !self.viols.is_empty() {
+                        return;
+                    }
+                    if !self.exited.contains(&tok) {
+                        if let Some(why) = self.closed.clone() {
+                            self.viol("C16:connection-lost:released-notify", format!("connection ended ({why}) after a notify handler ({}) was let go", out.name()));
+                        } else {
+                            self.inconcl.push("released notify handler did not exit within the window".into());
+                        }
+                        return;
+                    }
+                    self.exit_kinds.insert(out);
+                }
+            }
+            if rng.chance(1, 3) && !self.ping("between-releases").await {
+                return;
+            }
+            if self.cap > 0 && refills < 2 && rng.chance(1, 4) {
+                let o = Out::pick(&mut rng);
+                match self.admit_with_retries(o, "refill").await {
+                    Some((rid, rtok)) => {
+                        refills += 1;
+                        self.st.refills += 1;
+                        let at = rng.usize_below(queue.len() + 1);
+                        queue.insert(at, (Some(rid), rtok, o));
+                    }
+                    None => {
+                        if self.viols.is_empty() {
+                            self.progress_viol(
+                                format!("C16:slot-not-recovered:refill:{}", self.homogeneous_exit_suffix()),
+                                format!("cap {}: a handler exited ({}) and {} are parked, yet a new request was still rejected after {} rejections / 12 s", self.cap, out.name(), queue.len(), self.got8.len()),
+                            );
+                        }
+                        return;
+                    }
+                }
+            }
+        }
+        // ---------------- P3: a pipelined batch of handlers that do not park
+        let k = if self.cap == 0 { rng.usize_below(7) } else { rng.usize_below(2 * self.cap + 1) };
+        let mut frames = vec![];
+        let mut ids = vec![];
+        for _ in 0..k {
+            let (id, tok, out) = (self.new_id(), self.new_tok(), Out::pick(&mut rng));
+            self.pending.insert(id, Exp::Call { tok, out, released: true, may_reject: true });
+            let body = self.park_body(tok, out);
+            frames.push(req_frame(id, false, "/park", &body));
+            ids.push(id);
+        }
+        self.st.instants += k as u64;
+        self.send_all(frames).await;
+        for id in ids {
+            if !self.await_reply(id, "instant-handler").await {
+                return;
+            }
+            if self.got8.contains(&id) {
+                self.st.instants_rejected += 1;
+            }
+        }
+        // ---------------- P4: the whole capacity must come back
+        let want = if self.cap == 0 { 4 } else { self.cap };
+        let mut parked = vec![];
+        for i in 0..want {
+            let o = Out::pick(&mut rng);
+            match self.admit_with_retries(o, "recovery").await {
+                Some((id, tok)) => parked.push((id, tok, o)),
+                None => {
+                    if self.viols.is_empty() {
+                        self.progress_viol(
+                            format!("C16:slot-not-recovered:{}", self.homogeneous_exit_suffix()),
+                            format!(
+                                "cap {}: every earlier handler has exited (kinds {:?}), but only {i} of {want} new parked requests were admitted; the next one was rejected {} times over 12 s",
+                                self.cap,
+                                self.exit_kinds.iter().map(|o| o.name()).collect::<Vec<_>>(),
+                                self.got8.len()
+                            ),
+                        );
+                    }
+                    return;
+                }
+            }
+        }
+        self.st.recovered_slots += parked.len() as u64;
+        if self.cap > 0 {
+            self.saturated_now = true;
+            self.st.saturations_reached += 1;
+            let (cur, _) = self.sh.gauge(self.conn);
+            if cur != self.cap as u64 {
+                self.viol("C16:gauge-mismatch-at-saturation", format!("recovery: {} handlers parked, gauge reads {cur}", self.cap));
+                return;
+            }
+            // one more: must be rejected again (the cap did not grow), and an inline call still gets through
+            let (id, tok) = (self.new_id(), self.new_tok());
+            self.forbidden.insert(tok, false);
+            self.pending.insert(id, Exp::Reject);
+            let (pid, ptok) = (self.new_id(), self.new_tok());
+            self.pending.insert(pid, Exp::Ping { tok: ptok });
+            let b = self.park_body(tok, Out::Ret);
+            let before = self.st.overcap_requests_rejected;
+            self.send_all(vec![req_frame(id, false, "/park", &b), req_frame(pid, false, "/ping", &json!({ "tok": ptok }))]).await;
+            if !self.await_immediates(&[], "recovery-saturation").await {
+                return;
+            }
+            self.st.recovery_probe_rejected += self.st.overcap_requests_rejected - before;
+        }
+        rng.shuffle(&mut parked);
+        for (id, tok, o) in parked {
+            self.release(tok);
+            self.saturated_now = false;
+            if !self.await_reply(id, &format!("released-{}", o.name())).await {
+                return;
+            }
+        }
+        // ---------------- P5: the connection is still alive and nothing unexpected is in flight
+        if !self.ping("final").await {
+            return;
+        }
+        let dl = Instant::now() + Duration::from_secs(5);
+        while self.started.iter().any(|t| !self.exited.contains(t)) && self.pump(dl).await {}
+    }
+}
+
+// ------------------------------------------------------------------ one server case
+
+struct CaseResult {
+    viols: Vec<(String, String)>,
+    inconcl: Vec<String>,
+    stats: Vec<Stats>,
+    orders: Vec<u64>,
+    mw_calls: u64,
+    ctx_peer_seen: u64,
+    hook_saturation: u64,
+    hook_panic: u64,
+    hook_other: u64,
+    gate_timeouts: u64,
+    late_forbidden_starts: u64,
+}
+
+type RtPool = Arc<Mutex<Vec<tokio::runtime::Runtime>>>;
+
+async fn run_case(case: Case, hb: Arc<Heartbeat>, pool: RtPool) -> CaseResult {
+    let sh = Shared::new();
+    let router = build_router(&sh, case.route, case.mw);
+    let mut res = CaseResult { viols: vec![], inconcl: vec![], stats: vec![], orders: vec![], mw_calls: 0, ctx_peer_seen: 0, hook_saturation: 0, hook_panic: 0, hook_other: 0, gate_timeouts: 0, late_forbidden_starts: 0 };
+    let hs = sh.clone();
+    let mut server = WebSocketServer::new(router).on_error(move |e| match e {
+        ConnectionError::Saturation { .. } => {
+            hs.hook_saturation.fetch_add(1, Ordering::Relaxed);
+        }
+        ConnectionError::HandlerPanic { .. } => {
+            hs.hook_panic.fetch_add(1, Ordering::Relaxed);
+        }
+        _ => {
+            hs.hook_other.fetch_add(1, Ordering::Relaxed);
+        }
+    });
+    if !case.use_default_cap {
+        server = server.with_offreader_limit(case.cap);
+    }
+    // The server lives in its own small runtime: if a defect makes a parked handler run on the
+    // reader task it blocks a worker of *that* runtime only, never the drivers that must open the gates.
+    // Runtimes are pooled (thread churn); one that served a failing case is never reused.
+    let pooled = pool.lock().unwrap().pop();
+    let srv_rt = match pooled {
+        Some(r) => r,
+        None => match tokio::runtime::Builder::new_multi_thread().worker_threads(2).max_blocking_threads(256).enable_all().build() {
+            Ok(r) => r,
+            Err(e) => {
+                res.inconcl.push(format!("server runtime: {e}"));
+                return res;
+            }
+        },
+    };
+    let (addr_tx, addr_rx) = tokio::sync::oneshot::channel();
+    let srv_task = srv_rt.spawn(async move {
+        let listener = match tokio::net::TcpListener::bind("127.0.0.1:0").await {
+            Ok(l) => l,
+            Err(e) => {
+                let _ = addr_tx.send(Err(e.to_string()));
+                return;
+            }
+        };
+        let _ = addr_tx.send(listener.local_addr().map_err(|e| e.to_string()));
+        let _ = server.serve_listener(listener, "/repe").await;
+    });
+    let addr = match tokio::time::timeout(Duration::from_secs(10), addr_rx).await {
+        Ok(Ok(Ok(a))) => a,
+        other => {
+            res.inconcl.push(format!("server did not come up: {other:?}"));
+            srv_rt.shutdown_background();
+            return res;
+        }
+    };
+    let tag = if case.mw > 0 { "behind-middleware" } else { "plain-route" };
+    let mut tasks = vec![];
+    for script in case.scripts.clone() {
+        let (sh, hb) = (sh.clone(), hb.clone());
+        let cap = case.cap;
+        tasks.push(tokio::spawn(async move {
+            let conn = CONN_IDS.fetch_add(1, Ordering::Relaxed);
+            let (tx, rx) = unbounded_channel();
+            sh.ev.lock().unwrap().insert(conn, tx);
+            let stream = match tokio::net::TcpStream::connect(addr).await {
+                Ok(s) => s,
+                Err(e) => return (vec![], vec![format!("connect failed: {e}")], Stats::default(), 0u64, vec![]),
+            };
+            let _ = stream.set_nodelay(true);
+            // close with RST: thousands of short connections must not pile up in TIME_WAIT
+            let _ = stream.set_linger(Some(Duration::ZERO));
+            let ws = match tokio_tungstenite::client_async(format!("ws://{addr}/repe"), stream).await {
+                Ok((ws, _)) => ws,
+                Err(e) => return (vec![], vec![format!("websocket handshake failed: {e}")], Stats::default(), 0, vec![]),
+            };
+            let mut d = Drv {
+                ws,
+                ev_rx: rx,
+                sh: sh.clone(),
+                hb,
+                conn,
+                cap,
+                tag: tag.to_string(),
+                next_id: 0,
+                next_tok: 0,
+                pending: HashMap::new(),
+                gates: HashMap::new(),
+                started: HashSet::new(),
+                exited: HashSet::new(),
+                forbidden: HashMap::new(),
+                notify_ids: HashSet::new(),
+                got8: HashSet::new(),
+                saturated_now: false,
+                diagnosing: false,
+                exit_kinds: HashSet::new(),
+                closed: None,
+                viols: vec![],
+                inconcl: vec![],
+                st: Stats::default(),
+                order: vec![],
+            };
+            d.run_script(&script).await;
+            // let every handler go, whatever happened
+            let toks: Vec<u64> = d.gates.keys().copied().collect();
+            for t in toks {
+                d.drop_gate(t);
+            }
+            drop(d.ws);
+            let (_, max) = sh.gauge(conn);
+            d.st.gauge_max = d.st.gauge_max.max(max);
+            if cap > 0 && max > cap as u64 && !d.viols.iter().any(|v| v.0 == "C16:gauge-over-cap") {
+                d.viols.push(("C16:gauge-over-cap".into(), format!("gauge maximum {max} on one connection, cap {cap}")));
+            }
+            let forbidden: Vec<(u64, bool)> = d.forbidden.iter().map(|(k, v)| (*k, *v)).collect();
+            (d.viols, d.inconcl, d.st, hash_of(&d.order), forbidden)
+        }));
+    }
+    let mut forbidden_all = vec![];
+    for t in tasks {
+        match tokio::time::timeout(Duration::from_secs(150), t).await {
+            Ok(Ok((v, i, st, ord, forb))) => {
+                res.viols.extend(v);
+                res.inconcl.extend(i);
+                res.stats.push(st);
+                res.orders.push(ord);
+                forbidden_all.extend(forb);
+            }
+            Ok(Err(e)) => res.inconcl.push(format!("driver task failed: {e}")),
+            Err(_) => res.inconcl.push("driver task exceeded 150 s".into()),
+        }
+    }
+    srv_task.abort();
+    if res.viols.is_empty() && res.inconcl.is_empty() {
+        pool.lock().unwrap().push(srv_rt);
+    } else {
+        srv_rt.shutdown_background();
+    }
+    // a handler of a rejected / dropped message that started late would still hold its gate receiver? no:
+    // it removes it on start. Anything left in the shared gate map belongs to messages that never ran.
+    let _ = forbidden_all;
+    res.mw_calls = sh.mw_calls.load(Ordering::Relaxed);
+    res.ctx_peer_seen = sh.ctx_peer_seen.load(Ordering::Relaxed);
+    res.hook_saturation = sh.hook_saturation.load(Ordering::Relaxed);
+    res.hook_panic = sh.hook_panic.load(Ordering::Relaxed);
+    res.hook_other = sh.hook_other.load(Ordering::Relaxed);
+    res.gate_timeouts = sh.gate_timeouts.load(Ordering::Relaxed);
+    res
+}
+
+// ------------------------------------------------------------------ stage
 
 pub fn run(args: &Args) -> Report {
-    let mut rep = Report::new(args, "c16-stub", "stub");
-    rep.inconclusive("check not implemented");
+    let mut rep = Report::new(
+        args,
+        "c16-offreader-cap",
+        "real WebSocketServer with gauge-counting, gate-parked blocking routes driven by a raw tungstenite client: \
+         gauge ≤ cap at every handler entry; the first cap off-reader messages are admitted, later requests get ec 8 with \
+         their id and later notifies run nothing, and those replies plus interleaved inline pings are received before any \
+         gate is opened; released handlers answer with the scripted class (panic → ec 9, same id) while the others stay \
+         parked; after all exits cap new parked requests are admitted within bounded retries and one more is rejected. \
+         distinct = (cap, route kind, middleware, burst, release order) of an executed connection script",
+    );
+    let rt = match tokio::runtime::Builder::new_multi_thread().worker_threads(6).max_blocking_threads(2048).enable_all().build() {
+        Ok(r) => r,
+        Err(e) => {
+            rep.inconclusive(format!("tokio runtime: {e}"));
+            return rep;
+        }
+    };
+    let cases: Vec<Case> = match &args.replay {
+        Some(p) => match std::fs::read_to_string(p).ok().and_then(|s| serde_json::from_str::<Value>(&s).ok()).and_then(|v| case_from_json(&v)) {
+            Some(c) => vec![c],
+            None => {
+                rep.inconclusive(format!("cannot read replay case {p}"));
+                return rep;
+            }
+        },
+        None => plan(args),
+    };
+    let planned = cases.len();
+    let planned_exhaustive = cases.iter().filter(|c| c.exhaustive).count();
+    let hb = Arc::new(Heartbeat::start());
+    let budget = Duration::from_secs(if args.thorough() { 400 } else { 30 });
+    let started = Instant::now();
+    quiet_panics(true);
+    let width = if args.thorough() { 24 } else { 16 };
+    let pool: RtPool = Arc::new(Mutex::new(vec![]));
+    let results: Vec<(Case, CaseResult)> = rt.block_on(async {
+        let mut out = vec![];
+        let mut set = tokio::task::JoinSet::new();
+        let mut it = cases.into_iter();
+        let mut failing = 0;
+        loop {
+            while set.len() < width && started.elapsed() < budget && failing < 8 {
+                match it.next() {
+                    Some(c) => {
+                        let hb = hb.clone();
+                        let pool = pool.clone();
+                        set.spawn(async move {
+                            let r = run_case(c.clone(), hb, pool).await;
+                            (c, r)
+                        });
+                    }
+                    None => break,
+                }
+            }
+            match set.join_next().await {
+                Some(Ok(x)) => {
+                    if !x.1.viols.is_empty() {
+                        failing += 1;
+                    }
+                    out.push(x)
+                }
+                Some(Err(_)) => {}
+                None => break,
+            }
+        }
+        out
+    });
+    for r in std::mem::take(&mut *pool.lock().unwrap()) {
+        r.shutdown_background();
+    }
+    quiet_panics(false);
+    rt.shutdown_timeout(Duration::from_secs(3));
+
+    let mut tot = Stats::default();
+    let mut orders = HashSet::new();
+    let (mut mw_calls, mut ctx_seen, mut hook_sat, mut hook_panic, mut hook_other, mut gate_to) = (0, 0, 0, 0, 0, 0);
+    let mut exhaustive_done = 0u64;
+    let mut caps_seen: HashSet<usize> = HashSet::new();
+    let mut hook_sat_expected = 0u64;
+    let mut hook_panic_seen_cases = 0u64;
+    for (case, r) in &results {
+        let clean = r.viols.is_empty() && r.inconcl.is_empty();
+        if case.exhaustive && clean {
+            exhaustive_done += 1;
+        }
+        caps_seen.insert(case.cap);
+        for s in &case.scripts {
+            rep.eval();
+            rep.distinct(&(case.cap, case.route, case.mw, &s.burst, &s.release));
+        }
+        for st in &r.stats {
+            tot.frames += st.frames;
+            tot.admitted += st.admitted;
+            tot.overcap_requests_rejected += st.overcap_requests_rejected;
+            tot.overcap_notifies += st.overcap_notifies;
+            tot.pings_answered_during_saturation += st.pings_answered_during_saturation;
+            tot.pings_answered += st.pings_answered;
+            tot.panic_replies += st.panic_replies;
+            tot.error_replies += st.error_replies;
+            tot.return_replies += st.return_replies;
+            tot.refills += st.refills;
+            tot.instants += st.instants;
+            tot.instants_rejected += st.instants_rejected;
+            tot.recovered_slots += st.recovered_slots;
+            tot.retries += st.retries;
+            tot.max_retries = tot.max_retries.max(st.max_retries);
+            tot.rejects_seen += st.rejects_seen;
+            tot.gauge_max = tot.gauge_max.max(if case.cap == 0 { 0 } else { st.gauge_max });
+            tot.started_events += st.started_events;
+            tot.saturations_reached += st.saturations_reached;
+            tot.recovery_probe_rejected += st.recovery_probe_rejected;
+            hook_sat_expected += st.rejects_seen + st.overcap_notifies;
+        }
+        for o in &r.orders {
+            orders.insert(*o);
+        }
+        mw_calls += r.mw_calls;
+        ctx_seen += r.ctx_peer_seen;
+        hook_sat += r.hook_saturation;
+        hook_panic += r.hook_panic;
+        hook_other += r.hook_other;
+        gate_to += r.gate_timeouts;
+        if r.hook_panic > 0 {
+            hook_panic_seen_cases += 1;
+        }
+        for (sig, d) in &r.viols {
+            rep.violation(sig.clone(), format!("{d} [route {} mw {}]", ROUTES[case.route], case.mw), case_json(case));
+        }
+        for i in &r.inconcl {
+            rep.inconclusive(format!("{i} [cap {} route {}]", case.cap, ROUTES[case.route]));
+        }
+        if rep.samples.len() < 4 && (rep.samples.is_empty() || case.cap > 3) {
+            rep.sample(json!({"case": case_json(case), "frames": r.stats.iter().map(|s| s.frames).sum::<u64>(), "gauge_max": r.stats.iter().map(|s| s.gauge_max).max()}));
+        }
+    }
+    let executed = results.len();
+    rep.set("cases_planned", json!(planned));
+    rep.set("cases_executed", json!(executed));
+    rep.set("exhaustive_cases_planned", json!(planned_exhaustive));
+    rep.set("exhaustive_cases_clean", json!(exhaustive_done));
+    rep.exhaustive = Some(false);
+    rep.set("small_scope_exhaustive_caps_1_to_3", json!(exhaustive_done as usize == planned_exhaustive));
+    let mut caps: Vec<usize> = caps_seen.into_iter().collect();
+    caps.sort();
+    rep.set("caps_exercised_0_is_unlimited", json!(caps));
+    rep.set("frames_received", json!(tot.frames));
+    rep.set("handlers_admitted_in_bursts", json!(tot.admitted));
+    rep.set("handler_started_events", json!(tot.started_events));
+    rep.set("saturations_reached_gauge_equals_cap", json!(tot.saturations_reached));
+    rep.set("over_cap_requests_rejected_before_any_release", json!(tot.overcap_requests_rejected));
+    rep.set("over_cap_notifies_dropped", json!(tot.overcap_notifies));
+    rep.set("inline_pings_answered_during_saturation", json!(tot.pings_answered_during_saturation));
+    rep.set("inline_pings_answered", json!(tot.pings_answered));
+    rep.set("panic_replies_ec9", json!(tot.panic_replies));
+    rep.set("error_replies", json!(tot.error_replies));
+    rep.set("return_replies", json!(tot.return_replies));
+    rep.set("refills_admitted_while_others_parked", json!(tot.refills));
+    rep.set("instant_handlers", json!(tot.instants));
+    rep.set("instant_handlers_rejected_ec8", json!(tot.instants_rejected));
+    rep.set("slots_recovered", json!(tot.recovered_slots));
+    rep.set("recovery_retries_total", json!(tot.retries));
+    rep.set("recovery_retries_max_for_one_slot", json!(tot.max_retries));
+    rep.set("recovery_extra_request_rejected", json!(tot.recovery_probe_rejected));
+    rep.set("gauge_max_on_capped_connections", json!(tot.gauge_max));
+    rep.set("distinct_observed_event_orders", json!(orders.len()));
+    rep.set("middleware_invocations", json!(mw_calls));
+    rep.set("ctx_handlers_saw_peer", json!(ctx_seen));
+    rep.set("on_error_saturation_events", json!(hook_sat));
+    rep.set("on_error_saturation_expected_from_wire", json!(hook_sat_expected));
+    rep.set("on_error_handler_panic_events", json!(hook_panic));
+    rep.set("cases_with_handler_panic_hook", json!(hook_panic_seen_cases));
+    rep.set("on_error_other_events", json!(hook_other));
+    rep.set("heartbeat_max_gap_ms", json!(hb.max_gap_ms()));
+    if gate_to > 0 {
+        rep.inconclusive(format!("{gate_to} handlers timed out on their gate (harness trouble)"));
+    }
+    if executed < planned {
+        rep.set("cases_not_run_budget_or_early_stop", json!(planned - executed));
+        if exhaustive_done as usize != planned_exhaustive && rep.violations.is_empty() {
+            rep.inconclusive(format!("wall budget hit before the exhaustive part finished ({exhaustive_done}/{planned_exhaustive})"));
+        }
+    }
+    if args.replay.is_none() && (tot.overcap_requests_rejected == 0 || tot.saturations_reached == 0 || tot.panic_replies == 0) {
+        if rep.violations.is_empty() {
+            rep.inconclusive("too few events: no saturation, rejection or panic reply was observed");
+        }
+    }
     rep
 }
